@@ -85,7 +85,9 @@ func hostileBytes(r *RNG) []byte {
 		}
 		return b
 	case 5: // unknown comprehension-required attribute
-		m, _ := stun.Build(stun.TransactionID, stun.NewType(stun.Method(r.PickInt([]int{1, 3, 4, 6, 8, 9, 10, 11})), stun.MessageClass(r.Intn(4))), rawAttr{stun.AttrType(r.Intn(0x8000)), r.Bytes(r.Range(0, 12))})
+		var tid [stun.TransactionIDSize]byte
+		copy(tid[:], r.Bytes(len(tid))) // (never stun.TransactionID here: a plan is a function of its seed alone)
+		m, _ := stun.Build(stun.NewTransactionIDSetter(tid), stun.NewType(stun.Method(r.PickInt([]int{1, 3, 4, 6, 8, 9, 10, 11})), stun.MessageClass(r.Intn(4))), rawAttr{stun.AttrType(r.Intn(0x8000)), r.Bytes(r.Range(0, 12))})
 		return append([]byte(nil), m.Raw...)
 	case 6: // truncation
 		b := samples[r.Intn(len(samples))]
@@ -188,6 +190,10 @@ func genC09Authed(p *Plan, r *RNG) {
 }
 
 func genC09(p *Plan, r *RNG) {
+	if r.Chance(1, 10) {
+		genC09TLS(p, r)
+		return
+	}
 	switch r.Intn(5) {
 	case 0:
 		genC09Client(p, r)
@@ -293,4 +299,53 @@ func genC09Frame(p *Plan, r *RNG) {
 		p.Ops = append(p.Ops, Op{Kind: r.Pick([]string{"fin", "rst"}), At: gap(int64(r.Range(0, 100)) * ms)})
 	}
 	p.QuietNS = 3 * sec
+}
+
+// genC09TLS: a TLS listener. Clients that handshake and ask for their address, clients that
+// talk in the clear (STUN, hostile bytes), clients that connect and say nothing, clients
+// that hang up in the middle of whatever they were doing.
+func genC09TLS(p *Plan, r *RNG) {
+	p.World = "tls"
+	p.Flavor = "tls-listener"
+	p.Cfg = Config{Realm: "sim.realm", LatCSns: int64(r.Range(1, 40))*ms + 3, LatSPns: ms, Extra: map[string]int64{}}
+	n := r.Range(1, 4)
+	for i := 0; i < n; i++ {
+		id := fmt.Sprintf("c%d", i+1)
+		p.Clients = append(p.Clients, ClientSpec{ID: id, Addr: fmt.Sprintf("10.0.1.%d:%d", 1+i, 4000+i*13)})
+		g := gap(int64(r.Range(1, 800)) * ms)
+		switch r.Intn(4) {
+		case 0, 1:
+			p.Ops = append(p.Ops, Op{Actor: id, Kind: "tls_connect", At: g})
+			for k := r.Range(1, 3); k > 0; k-- {
+				p.Ops = append(p.Ops, Op{Actor: id, Kind: "tls_binding", At: gap(int64(r.Range(300, 1500)) * ms)})
+			}
+		case 2:
+			// bytes that are no handshake: STUN in the clear, or anything
+			p.Ops = append(p.Ops, Op{Actor: id, Kind: "connect", At: g})
+			raw := hostileBytes(r)
+			if r.Chance(1, 2) {
+				var tid [12]byte
+				copy(tid[:], r.Bytes(12))
+				m, _ := stun.Build(stun.NewTransactionIDSetter(tid), stun.BindingRequest, stun.Fingerprint)
+				raw = m.Raw
+			}
+			if len(raw) > 4000 {
+				raw = raw[:4000]
+			}
+			p.Ops = append(p.Ops, Op{Actor: id, Kind: "raw", At: gap(int64(r.Range(100, 900)) * ms), A: OpArgs{Raw: hex.EncodeToString(raw)}})
+		case 3:
+			p.Ops = append(p.Ops, Op{Actor: id, Kind: "connect", At: g}) // says nothing
+		}
+		if r.Chance(1, 4) {
+			o := Op{Actor: id, Kind: "hangup", At: gap(int64(r.Range(1, 12000)) * ms)}
+			if r.Chance(1, 3) {
+				o.A.Flags = []string{"rst"}
+			} else if r.Chance(1, 2) {
+				o.A.Flags = []string{"notify"}
+			}
+			p.Ops = append(p.Ops, o)
+		}
+	}
+	p.Ops = append(p.Ops, Op{Actor: "", Kind: "wait", At: gap(int64(r.PickInt([]int{1, 5, 17})) * sec)})
+	p.QuietNS = 2 * sec
 }
